@@ -86,6 +86,18 @@ func runC05(c *Ctx, r *Report, tier string) {
 			}
 		}
 	}
+	// the environment value is split on env-delim for every kind of option (a callback is called once per piece, a
+	// scalar takes the last): the split hangs on the delimiter being declared and on nothing about the field
+	for _, in := range c.instrs(cd, c.isCallTo("strings.Split", "strings.SplitN", "strings.FieldsFunc")) {
+		var extra []string
+		for _, l := range c.depsOf(cd, in) {
+			t := l.Term
+			if strings.Contains(t, "Kind(") || strings.Contains(t, "reflect.") || strings.Contains(t, "Option.value(") {
+				extra = append(extra, trunc(l.String(), 70))
+			}
+		}
+		r.Check(len(extra) == 0, "CLEAR", cn, "env value split on env-delim whatever the field's kind", c.ipos(in), "no guard on the option's value or kind", "the split also depends on "+strings.Join(extra, "; ")+": for the other kinds the whole variable is applied as one value")
+	}
 	// env key
 	for _, in := range c.instrs(cd, c.isCallTo("os.LookupEnv")) {
 		k := c.term(in.(*ssa.Call).Call.Args[0])
@@ -235,10 +247,12 @@ func runC05(c *Ctx, r *Report, tier string) {
 	}
 	// the disarm precedes conversion
 	for _, in := range c.instrs(set, c.isCallTo("convert", "(*Option).call")) {
-		c.mptRule(r, "FLAGS", set, in, "disarm before conversion", func(x ssa.Instruction) bool {
+		// (or the path has just found the flag already false)
+		path, ok := c.MustPass(set, isInstr(in), func(x ssa.Instruction) bool {
 			st, ok := x.(*ssa.Store)
 			return ok && c.isStoreTo(crbs)(x) && c.term(st.Val) == "false"
-		}, "store clearReferenceBeforeSet = false", nil)
+		}, litIs("Option.clearReferenceBeforeSet(P0)", false), nil)
+		r.Check(ok, "FLAGS", c.fname(set), "disarm before conversion", c.ipos(in), "every path from entry passes store clearReferenceBeforeSet = false (or the edge on which it is false already)", "reachable with the flag still set: "+pathStr(path))
 	}
 
 	// ---- INI
